@@ -27,6 +27,10 @@ def main():
         good = r.violation == "Unreach_" + inv
         print("vacuity: antecedent of %s reachable in MC_Rapid/faults: %s" % (inv, "yes (depth %d)" % len(r.trace) if good else "NO"))
         ok &= good
+    r = mcrapid.run("internal", ["Unreach_InternalBusy"], constraint="NoGhostInvoke", timeout=600)
+    good = r.violation == "Unreach_InternalBusy"
+    print("vacuity: an internal extension busy with an event is reachable in MC_Rapid/internal: %s" % ("yes (depth %d)" % len(r.trace) if good else "NO"))
+    ok &= good
     # the TLAPS proof of the latch invariants must break exactly at SetCount for the latch as found (no broadcast)
     import tlc, shutil, tempfile
     d = tempfile.mkdtemp(prefix="verif-proof-")
